@@ -160,11 +160,20 @@ func mkMoofX(seq uint32, trafs []trafX, mdatHdr int, doffSkew int32) (moofBytes 
 	return encodeBox(moof), nsamples, desc
 }
 
-func mkMdatX(seq uint32, payload int) []byte {
-	b := make([]byte, 8+payload)
-	binary.BigEndian.PutUint32(b, uint32(8+payload))
+func mkMdatX(seq uint32, payload int, large bool) []byte {
+	h := 8
+	if large {
+		h = 16
+	}
+	b := make([]byte, h+payload)
+	if large {
+		binary.BigEndian.PutUint32(b, 1)
+		binary.BigEndian.PutUint64(b[8:], uint64(h+payload))
+	} else {
+		binary.BigEndian.PutUint32(b, uint32(h+payload))
+	}
 	copy(b[4:], "mdat")
-	for i := 8; i < len(b); i++ {
+	for i := h; i < len(b); i++ {
 		b[i] = byte(seq + uint32(i))
 	}
 	return b
@@ -317,7 +326,8 @@ func (g *gen) multi(o multiOpts) *layout {
 			g.seq++
 			hdr := 8
 			virtual := o.big && (f == nf-1) && r.Intn(2) == 0
-			if virtual {
+			largeHdr := !virtual && r.Intn(5) == 0 // a small mdat written with a 16-byte large-size header
+			if virtual || largeHdr {
 				hdr = 16
 			}
 			skew := int32(0)
@@ -334,7 +344,7 @@ func (g *gen) multi(o multiOpts) *layout {
 				if skew > 0 {
 					pay += int(skew)
 				}
-				md = &elem{kind: 'd', data: mkMdatX(g.seq, pay), seg: s, frag: fragNo}
+				md = &elem{kind: 'd', data: mkMdatX(g.seq, pay, largeHdr), seg: s, frag: fragNo}
 			}
 			l.els = append(l.els, mo, md)
 			lastMdat = md
@@ -722,8 +732,8 @@ func searchSkew(l *layout) {
 			if pos, ok := singleTrunDoff(e.data); ok {
 				o := int(e.pos) + pos
 				if first == "" && !bytes.Equal(a[o:o+4], b[o:o+4]) {
-					first = fmt.Sprintf("moof at %d (%d bytes, mdat header %d): data_offset %d in the input, %d in the output",
-						e.pos, len(e.data), 8, int32(binary.BigEndian.Uint32(a[o:])), int32(binary.BigEndian.Uint32(b[o:])))
+					first = fmt.Sprintf("moof at %d (%d bytes): data_offset %d in the input, %d in the output",
+						e.pos, len(e.data), int32(binary.BigEndian.Uint32(a[o:])), int32(binary.BigEndian.Uint32(b[o:])))
 				}
 				copy(a[o:o+4], []byte{0, 0, 0, 0})
 				copy(b[o:o+4], []byte{0, 0, 0, 0})
